@@ -6,6 +6,7 @@ mod m_chain;
 #[cfg(eyeball_verif)]
 mod m_conc;
 mod m_diff;
+mod m_lin;
 mod m_obs;
 mod m_ovec;
 
@@ -19,6 +20,7 @@ fn main() {
         "adapt" => m_adapt::run_line,
         "ovec" => m_ovec::run_line,
         "chain" => m_chain::run_line,
+        "lin" => m_lin::run_line,
         #[cfg(eyeball_verif)]
         "conc" => m_conc::run_line,
         "obs" => {
